@@ -304,10 +304,13 @@ impl FileSpec {
                 }
             })
             .filter(|pb| {
-                pb.file_name()
-                    .unwrap()
-                    .to_string_lossy()
-                    .contains(".restart-")
+                // a restart sibling has ".restart-" followed by its four-digit number
+                let file_name = pb.file_name().unwrap().to_string_lossy();
+                file_name.find(".restart-").is_some_and(|index| {
+                    file_name
+                        .get((index + 9)..(index + 13))
+                        .is_some_and(|number| number.bytes().all(|b| b.is_ascii_digit()))
+                })
             })
             .collect::<Vec<PathBuf>>();
 
